@@ -39,7 +39,7 @@ ASSUMPTIONS = [
     "and k*dr may fall on different sides); their count is reported",
     "force rows whose numerical-fallback stencil (h=1e-6) crosses a piecewise boundary are not compared",
 ]
-REQUIRED = {"special:rows_over_1000": 2, "defaults:cutoff_dr_given": 3, "special:int_plateau": 4, "special:root_on_grid": 8, "special:decay_tail": 8, "special:growth": 4, "single_row_table": 2, "repeated_pair_in_list": 5, "route:api_class": 15, "route:writePotentials": 15, "route:potable": 25,
+REQUIRED = {"special:break_at_cutoff": 4, "special:rows_over_1000": 2, "defaults:cutoff_dr_given": 3, "special:int_plateau": 4, "special:root_on_grid": 8, "special:decay_tail": 8, "special:growth": 4, "single_row_table": 2, "repeated_pair_in_list": 5, "route:api_class": 15, "route:writePotentials": 15, "route:potable": 25,
             "blocks>=2": 20, "force:numeric_fallback": 10, "reversed_labels": 5, "rewrite:2_writes": 2, "defaults:nr_given": 1, "defaults:cutoff_given": 1, "defaults:none_given": 1}
 FMT = ("f", 8)
 
@@ -77,6 +77,20 @@ def _case(draw, nr_max, min_pots=1, max_pots=4, defaults=False, route=None, repe
     m.update({"cutoff": cutoff, "nr": nr, "route": route,
               "container": draw(st.sampled_from(["list", "list", "tuple", "iterator", "generator"]))})
     return m
+
+
+@st.composite
+def _break_at_cutoff(draw):
+    """a range that starts exactly at the cutoff ('>=cutoff as.zero', '>cutoff ...'): the last row, which is the
+    cutoff, is on the side the marker says"""
+    route = draw(st.sampled_from(["api_class", "writePotentials", "potable", "main"]))
+    cutoff = draw(st.sampled_from([1.0, 10.0, 6.5, 12.0, 8.0, 2.5]))
+    # row counts for which the running formula of the writer overshoots the cutoff by an ulp are among these
+    nr = draw(st.sampled_from([38, 56, 8, 26, 109, 110, 214, 16, 24, 28, 11, 101]))
+    a, b = draw(st.sampled_from([("A", "B"), ("O", "U"), ("Xx", "Xx")]))
+    pd = draw(gen.node_break_potdef([cutoff]))
+    return {"env": {"custom": [], "table": []}, "pair": [[a, b, pd]], "species": sorted(set([a, b])), "cutoff": cutoff, "nr": nr,
+            "route": route, "container": "list", "special": "break_at_cutoff"}
 
 
 @st.composite
@@ -124,8 +138,8 @@ def strata(tier):
             ("repeated_pair:" + r, _case(60, 2, 4, route=r, repeated=True), 0.6) for r in ("api_class", "writePotentials")] + [
             ("route:writePotentials", _case(60, 1, 4, route="writePotentials"), 1)] + [
             ("defaults:" + g, _case(60, 1, 2, g), 0.4) for g in ("nr", "cutoff", "none", "cutoff_dr")] + [
-            ("rows_over_1000", _rows_over_1000(), 0.5)]
-    return [("defaults:" + g, _case(60, 1, 2, g), 0.4) for g in ("nr", "cutoff", "none", "cutoff_dr")] + [("rows_over_1000", _rows_over_1000(), 0.5)] + [("rewrite", _rewrite(), 1), ("one", _case(60, 1, 1), 3), ("several", _case(60, 2, 4), 3), ("medium", _case(400), 3),
+            ("rows_over_1000", _rows_over_1000(), 0.5), ("break_at_cutoff", _break_at_cutoff(), 1)]
+    return [("break_at_cutoff", _break_at_cutoff(), 1)] + [("defaults:" + g, _case(60, 1, 2, g), 0.4) for g in ("nr", "cutoff", "none", "cutoff_dr")] + [("rows_over_1000", _rows_over_1000(), 0.5)] + [("rewrite", _rewrite(), 1), ("one", _case(60, 1, 1), 3), ("several", _case(60, 2, 4), 3), ("medium", _case(400), 3),
             ("large", _case(5000, 1, 2), 1), ("root_on_grid", _special("root_on_grid"), 1),
             ("decay_tail", _special("decay_tail"), 1), ("growth", _special("growth"), 0.5), ("int_plateau", _special("int_plateau"), 0.6), ("single_row", _case(2, 1, 3), 0.3)] + [
         ("repeated_pair:" + r, _case(60, 2, 4, route=r, repeated=True), 0.6) for r in ("api_class", "writePotentials")] + [
@@ -215,10 +229,15 @@ def verify_text(case, out, route_kind, ctx=""):
         for i in compare.sample_rows(N):
             k = i + 1
             r = k * dr
+            if k == N:
+                r = cutoff              # the last row is the cutoff itself ("running ... to hi=cutoff")
             idx, rp, E, Fv = blk["rows"][i]
             if not model.same_piece(ref, pd, r, 64 * 2.3e-16 * max(1.0, r)):
-                stats["boundary_rows_skipped"] += 1
-                continue
+                if not (k == N and model.on_boundary(ref, pd, r)):
+                    stats["boundary_rows_skipped"] += 1
+                    continue
+                # a range that starts exactly at the cutoff: the marker decides whether the last row belongs to it
+                stats["last_row_on_boundary"] = True
             try:
                 j, tr = pairtab.ref_row(ref, pd, r, order=2)
             except DomainError:
